@@ -24,11 +24,26 @@ def optNatJ : Option Nat → Json
   | none => Json.null
   | some n => jn n
 
+def resJ : Option Res → Json
+  | none => Json.null
+  | some (.ok t) => jn t
+  | some .exc => Json.str "exc"
+
 def futJ (f : Fut) : Json :=
   let k := match f.key with
     | .cmd c => Json.mkObj [("k", "cmd"), ("c", cmdJ c)]
     | .pay p => Json.mkObj [("k", "pay"), ("p", payJ p)]
-  Json.mkObj [("key", k), ("res", optNatJ f.result)]
+  -- the stage of a finished job is not observable
+  Json.mkObj [("key", k), ("res", resJ f.result), ("stage", if f.result.isNone then jn f.stage else Json.null)]
+
+def keyJ : Key → Json
+  | .cmd c => Json.mkObj [("k", "cmd"), ("c", cmdJ c)]
+  | .pay p => Json.mkObj [("k", "pay"), ("p", payJ p)]
+
+def emsgJ : EMsg → Json
+  | .pub d i => Json.mkObj [("k", "pub"), ("ds", jn d), ("idx", jn i)]
+  | .fail => Json.mkObj [("k", "fail")]
+  | .purge d => Json.mkObj [("k", "purge"), ("ds", jn d)]
 
 def eventJ : Event → Json
   | .submitted h i d => Json.mkObj [("e", "submit"), ("h", jn h), ("idx", jn i), ("ds", jn d), ("retry", false)]
@@ -38,6 +53,12 @@ def eventJ : Event → Json
   | .stored h d i v f => Json.mkObj [("e", "stored"), ("h", jn h), ("ds", jn d), ("idx", jn i), ("value", Json.str v), ("deser", Json.str f)]
   | .announced h d i => Json.mkObj [("e", "announced"), ("h", jn h), ("ds", jn d), ("idx", jn i)]
   | .redundant h d i => Json.mkObj [("e", "redundant"), ("h", jn h), ("ds", jn d), ("idx", jn i)]
+  | .storeFail h d i st => Json.mkObj [("e", "storeFail"), ("h", jn h), ("ds", jn d), ("idx", jn i), ("stage", jn st)]
+  | .futFail h k => Json.mkObj [("e", "futFail"), ("h", jn h), ("key", keyJ k)]
+  | .ctrlPub h d i => Json.mkObj [("e", "ctrlPub"), ("h", jn h), ("ds", jn d), ("idx", jn i)]
+  | .ctrlFail h => Json.mkObj [("e", "ctrlFail"), ("h", jn h)]
+  | .purgeFwd h d => Json.mkObj [("e", "purgeFwd"), ("h", jn h), ("ds", jn d)]
+  | .purgeDropped h d => Json.mkObj [("e", "purgeDropped"), ("h", jn h), ("ds", jn d)]
   | .ignored h d i => Json.mkObj [("e", "ignored"), ("h", jn h), ("ds", jn d), ("idx", jn i)]
   | .ackRecv h i => Json.mkObj [("e", "ackRecv"), ("h", jn h), ("idx", jn i)]
   | .purged h d k => Json.mkObj [("e", "purged"), ("h", jn h), ("ds", jn d), ("inprog", jn k)]
@@ -54,7 +75,8 @@ def hostJ (hs : Host) : Json :=
     ("futs", arrJ futJ hs.futs),
     ("acked", arrJ (fun (e : Nat × Nat) => Json.arr #[jn e.1, jn e.2]) hs.acked),
     ("sock", arrJ frameJ hs.sock),
-    ("crashed", Json.bool hs.crashed)]
+    ("crashed", Json.bool hs.crashed),
+    ("allocd", nats hs.allocd), ("published", nats hs.published), ("mbox", arrJ emsgJ hs.mbox)]
 
 structure DSt where
   w : World
@@ -78,12 +100,23 @@ def outJ (s : DSt) (oldLog : Nat) : Json :=
     ("ctrlAcked", arrJ (fun (e : Nat × Nat) => Json.arr #[jn e.1, jn e.2]) s.w.ctrlAcked),
     ("events", arrJ eventJ newEv)]
 
-def initWorld (stores : List Json) : World :=
+def initWorld (stores : List Json) (published : List Json) : World :=
   let ents : List (Nat × Nat × String × String) := stores.map (fun e =>
     match asArr e with
     | [h, d, v, f] => (asNat h, asNat d, asStr v, asStr f)
     | _ => (0, 0, "", ""))
-  { hosts := fun h => { store := (ents.filter (fun e => e.1 = h)).map (fun e => e.2) } }
+  let pubs : List (Nat × Nat) := published.map (fun e =>
+    match asArr e with
+    | [h, d] => (asNat h, asNat d)
+    | _ => (0, 0))
+  { hosts := fun h => { store := (ents.filter (fun e => e.1 = h)).map (fun e => e.2),
+                        published := (pubs.filter (fun e => e.1 = h)).map (fun e => e.2) } }
+
+def readFault (j : Json) : Fault :=
+  match getStr j "fault" with
+  | "fail" => .fail
+  | "closeExc" => .closeExc
+  | _ => .none
 
 /-- rebuild `hosts` as a flat table (the model's `setHost` nests one closure per update) -/
 def flatten (n : Nat) (w : World) : World :=
@@ -95,12 +128,14 @@ def c07Step (s0 : DSt) (j : Json) : DSt × Json :=
   let old := s.w.log.length
   match getStr j "op" with
   | "init" =>
-    let s' : DSt := { w := initWorld (getArr j "stores"), n := getNat j "n" }
+    let s' : DSt := { w := initWorld (getArr j "stores") (getArr j "published"), n := getNat j "n" }
     (s', outJ s' 0)
   | "tick" =>
     let s' := { s with w := step s.w (.tick (getNat j "h") ((getArr j "inputs").map readInput) ((getArr j "sched").map asNat)) }
     (s', outJ s' old)
   | "job" => let s' := { s with w := step s.w (.job (getNat j "h") (getNat j "c")) }; (s', outJ s' old)
+  | "jobstep" => let s' := { s with w := step s.w (.jobstep (getNat j "h") (getNat j "c") (readFault j)) }; (s', outJ s' old)
+  | "etick" => let s' := { s with w := step s.w (.etick (getNat j "h") ((getArr j "purges").map asNat)) }; (s', outJ s' old)
   | "adv" => let s' := { s with w := step s.w (.adv (getNat j "d")) }; (s', outJ s' old)
   | "drop" => let s' := { s with w := step s.w (.drop (getNat j "i")) }; (s', outJ s' old)
   | "ctrl" => let s' := { s with w := step s.w (.ctrl (getNat j "i") (getBool j "dup")) }; (s', outJ s' old)
